@@ -29,7 +29,7 @@ CLAIMED = {
          "For every search tree and every permuting mangler/shuffle the block visitors deliver a permutation of the items; Len is exact. Compared (as sorted multisets) against the package for every n in 0..70 and around 1024/2048 (thorough: 3072, 5000, random sizes).",
          "Early stop inside a block is not part of the compared observable. Besides the size sweep, profile C16 measures (Len, both block enumerations) between mutations and under snapshots."),
  "C03": ("Lean proof: scan_crash_atomic / openStore_crash_atomic (greatest valid root end), append-only prefix; crash-image enumeration",
-         "For every image that keeps the bytes below the last durable end E and has no complete root record above E, opening lands exactly on the flush that ended at E; every Flush write (torn or not) keeps that prefix. The harness cuts the write log at every write boundary, every byte of root-record writes and sampled (thorough: all) bytes of other writes, with magic-marker values, altered copies of root records, VERBATIM copies of earlier root records, 16 trailer-position bytes (top bit set / clear / random) behind a doubled end marker, and a tail-length boundary sweep (junk of every length around each power of two from 512 to 8192) as junk, re-opens each image with the real package and the model, and continues a sample of recovered stores.",
+         "For every image that keeps the bytes below the last durable end E and has no complete root record above E, opening lands exactly on the flush that ended at E; every Flush write (torn or not) keeps that prefix. The harness cuts the write log at every write boundary, every byte of root-record writes and sampled (thorough: all) bytes of other writes, with magic-marker values, altered copies of root records, VERBATIM copies of earlier root records, correctly framed records whose payload is not a root map, 16 trailer-position bytes (top bit set / clear / random) behind a doubled end marker, and a tail-length boundary sweep (junk of every length around each power of two from 512 to 8192) as junk, re-opens each image with the real package and the model, and continues a sample of recovered stores.",
          "The junk hypothesis (no complete self-consistent root record above E) is the property's own exclusion."),
  "C05": ("Lean proof on interleaving Model C (all schedules) + lock-discipline theorems on regenerated lock tables + deterministic-scheduler trace validation",
          "read_one_version, no_lost_update, flush_persists_current_versions, flush_name_order, no_deadlock for all programs and all schedules of the model; no mutex held across file I/O or callbacks and a fixed lock order (decide on tables regenerated from /repo). The real package is run under a seeded cooperative scheduler (yield hooks, file calls, visitor callbacks) and every read / every concurrent Flush image is validated against the version it pinned.",
